@@ -857,12 +857,14 @@ func (c *vCase) opLog(l vLogSpec, pick func(vTxRef) vRcAns) {
 	ans := c.scriptAnswers([]vTxRef{{l.tx, l.bh, l.bn}}, pick)
 	data := vPackData(l.m)
 	if l.badData {
-		data = data[:len(data)-7]
+		data = data[:len(data)-40] // cuts into the payload length word / the payload itself
 	}
 	var senderTopic ethCommon.Hash
 	copy(senderTopic[12:], l.m.sender[:])
 	lg := ethTypes.Log{Address: c.contract, Topics: []ethCommon.Hash{LogMessagePublishedTopic, senderTopic}, Data: data,
 		BlockNumber: l.bn, TxHash: l.tx, BlockHash: l.bh, Removed: l.removed}
+	// whether the log is decodable is decided by the real ABI decoder (trusted base), not by the generator's intention
+	undecodable := vParseOracle(&lg) == "err"
 	key := pendingKey{TxHash: l.tx, BlockHash: l.bh, EmitterAddress: PadAddress(l.m.sender), Sequence: l.m.seq}
 	before, _ := c.pendingSnapshot()
 	prev := before[key]
@@ -911,7 +913,7 @@ func (c *vCase) opLog(l vLogSpec, pick func(vTxRef) vRcAns) {
 	if l.removed {
 		rm = 1
 	}
-	if l.badData {
+	if undecodable {
 		bd = 1
 	}
 	c.emit(fmt.Sprintf("log %s tx=%s bh=%s bn=%d sender=%s tchain=%d seq=%d nonce=%d pl=%s cl=%d rm=%d bad=%d bt=%s %s pe=0 ans=%s %s",
